@@ -41,10 +41,15 @@ def run_one(sid, tier="quick"):
         open(os.path.join(d, "patch.diff"), "w").write(diff)
         print(sid, "patch rebased onto", sh(["git", "-C", "/repo", "rev-parse", "--short", "HEAD"])[1].strip())
     t0 = time.time()
+    evp = os.path.join(V, "evidence", pid + ".json")
+    saved = open(evp).read() if os.path.exists(evp) else None
     try:
         rc, out = sh(["./check", pid, "--tier", tier], cwd=V, timeout=3600)
     finally:
         sh(["git", "-C", "/repo", "checkout", "--", "."])
+        # the evidence file must describe the unchanged tree, not this seeded run
+        if saved is not None:
+            open(evp, "w").write(saved)
     viol = [l for l in out.splitlines() if l.startswith("VIOLATION")]
     res = {"seeded": sid, "property": pid, "tier": tier, "exit": rc, "caught": rc == 1 and bool(viol),
            "violation_lines": viol, "found_failing_input": any("no-failing-input-found" not in l for l in viol),
@@ -79,7 +84,7 @@ def confirm(src, sid, pid):
                 m = re.search(r"(demo\w*\.go|demo/main\.go)\s+(?:to|at|->|as)\s+(\S+\.go)", l)
                 if m and not places:
                     places.append([m.group(1), m.group(2)])
-                if re.match(r"(\(cd \S+ && )?(go (test|run) |rm -rf app/)", l) and l not in cmds:
+                if re.match(r"(\(cd \S+ && )?((\w+=\S+ )*go (test|run) |rm -rf app/)", l) and l not in cmds:
                     cmds.append(l)
         if not places or not cmds:
             print("RUN.txt must contain `PLACE <file> <relpath>` and `CMD <shell command>` lines"); return 1
@@ -106,6 +111,28 @@ def confirm(src, sid, pid):
         rc, out = sh(["python3", os.path.join(V, "tools", "baseline.py"), "--repo", wt], timeout=3600)
         report["baseline"] = out.strip().splitlines()[:6]
         report["baseline_ok"] = rc == 0
+        if rc != 0:
+            # differential: a stable test that fails with the patch counts only if it passes WITHOUT the patch
+            # under the same machine load (timing-sensitive tests fail on a busy machine either way)
+            import re as _re
+            failing = _re.findall(r"NOT PASSING: (\S+)::(\S+)", out)
+            sh(["git", "checkout", "--", "."], cwd=wt)
+            really = []
+            for pkg, name in failing:
+                top = name.split("/")[0]
+                if pkg.startswith("github.com/hydraide/hydraide/sdk/go/hydraidego/v3"):
+                    d2, rel = wt + "/sdk/go/hydraidego", "." + pkg[len("github.com/hydraide/hydraide/sdk/go/hydraidego/v3"):]
+                else:
+                    d2, rel = wt, "." + pkg[len("github.com/hydraide/hydraide"):]
+                r0, _ = sh(["go", "test", "-vet=off", "-count=1", "-run", "^%s$" % top, rel], cwd=d2, env=dict(env, GOFLAGS="-mod=mod"))
+                sh(["git", "apply", os.path.join(src, "patch.diff")], cwd=wt)
+                r1, _ = sh(["go", "test", "-vet=off", "-count=1", "-run", "^%s$" % top, rel], cwd=d2, env=dict(env, GOFLAGS="-mod=mod"))
+                sh(["git", "checkout", "--", "."], cwd=wt)
+                if r0 == 0 and r1 != 0:
+                    really.append(pkg + "::" + name)
+            sh(["git", "apply", os.path.join(src, "patch.diff")], cwd=wt)
+            report["baseline_failures_attributable_to_patch"] = really
+            report["baseline_ok"] = not really
         place()
         rc1, out1 = sh(" && ".join(cmds), cwd=wt, env=env, timeout=1800)
         report["demo_with_patch_rc"] = rc1
